@@ -968,6 +968,17 @@ def _third_batch(ctx):
             out.append(ok(R, k_, 'every poll of the output stream looks at `pending`', fn=pn0.name))
         elif looks:
             out.append(bad(R, k_, 'a poll of the output stream can answer without looking at the buffer: outputs that are already there are not delivered', fn=pn0.name))
+    # ---- the "what next?" closure that schedule_thread gives its pool threads always asks the schedule
+    st0 = F.fn('desync::SchedulerCore::schedule_thread')
+    if st0:
+        fetchers = [k_ for k_ in _children(ctx, st0.name) if k_.is_closure and 'Option<' in clean_ty(k_.local_ty(0)) and 'JobQueue' in clean_ty(k_.local_ty(0))]
+        k_ = 'schedule_thread|pool-threads-always-ask-the-schedule'
+        if len(fetchers) == 1:
+            nt = [bb for bb, t in calls(fetchers[0], 'SchedulerCore::next_to_run')]
+            if nt and _always(fetchers[0], nt):
+                out.append(ok(R, k_, 'the fetch closure calls next_to_run on every path', fn=fetchers[0].name))
+            else:
+                out.append(bad(R, k_, 'a pool thread can be told "nothing to run" without the schedule having been looked at: it goes dormant while queues wait, and nothing wakes it for them', fn=fetchers[0].name))
     # ---- pool thread body (the closure handed to SchedulerThread::run): it stops only when it found nothing to run, and then it is idle
     sd = F.fn('desync::SchedulerCore::schedule_dormant')
     body = None
